@@ -1600,6 +1600,66 @@ func normaliseIndexLoops(fd *ast.FuncDecl) {
 	var doList func(list []ast.Stmt)
 	doList = func(list []ast.Stmt) {
 		for k, st := range list {
+			if rs, ok := st.(*ast.RangeStmt); ok && rs.Value == nil && rs.Tok == token.DEFINE {
+				// `for i := range xs { … xs[i] … }` likewise (xs a slice or array name: a channel or map cannot be indexed by
+				// the range key of the same name and type without the compiler complaining, or means the same)
+				i, ok1 := rs.Key.(*ast.Ident)
+				xs, ok2 := rs.X.(*ast.Ident)
+				if ok1 && ok2 && i.Name != "_" {
+					okBody, uses := true, 0
+					ast.Inspect(rs.Body, func(n ast.Node) bool {
+						switch y := n.(type) {
+						case *ast.IndexExpr:
+							if a, ok := y.X.(*ast.Ident); ok && a.Name == xs.Name {
+								if b, ok := y.Index.(*ast.Ident); ok && b.Name == i.Name {
+									uses++
+									return false
+								}
+							}
+						case *ast.Ident:
+							if y.Name == i.Name {
+								okBody = false
+							}
+						case *ast.AssignStmt:
+							for _, l := range y.Lhs {
+								if a, ok := l.(*ast.Ident); ok && a.Name == xs.Name {
+									okBody = false
+								}
+								// an element assigned through the index is no plain read
+								if ix, ok := l.(*ast.IndexExpr); ok {
+									if a, ok := ix.X.(*ast.Ident); ok && a.Name == xs.Name {
+										okBody = false
+									}
+								}
+							}
+						case *ast.UnaryExpr:
+							if y.Op == token.AND {
+								okBody = false
+							}
+						}
+						return true
+					})
+					if okBody && uses > 0 {
+						v := "c"
+						for used[v] {
+							v += "_"
+						}
+						used[v] = true
+						mapExprs(rs.Body, func(e ast.Expr) ast.Expr {
+							if y, ok := e.(*ast.IndexExpr); ok {
+								if a, ok := y.X.(*ast.Ident); ok && a.Name == xs.Name {
+									if b, ok := y.Index.(*ast.Ident); ok && b.Name == i.Name {
+										return ast.NewIdent(v)
+									}
+								}
+							}
+							return e
+						})
+						rs.Key, rs.Value = ast.NewIdent("_"), ast.NewIdent(v)
+					}
+				}
+				continue
+			}
 			fs, ok := st.(*ast.ForStmt)
 			if !ok || fs.Init == nil || fs.Cond == nil || fs.Post == nil {
 				continue
